@@ -191,8 +191,9 @@ Loop:
 		if err != nil {
 			switch err {
 			case codec.ErrUnKnown, codec.ErrInvalidResp, codec.ErrInvalidInitializing:
-				logging.Errorf("[%ds] redis response parse failed, error: %s", s.fd, err)
-				continue
+				// nothing was consumed, so reading the same bytes again would never end: give the connection up
+				logging.Errorf("[%ds] redis response parse failed, closing the connection, error: %s", s.fd, err)
+				return el.closeConn(s, err, ConnErr)
 
 			// process the redis moved/ask packet
 			case codec.MovedOrAsk:
